@@ -325,15 +325,18 @@ fn interpret(c: &mut Commands, ctx: &mut Ctx, act: &SAct)
         SAct::SysEvent(r, ty, pid) =>
         {
             let Some(e) = resolve(*r) else { return };
+            log(format!("send p{pid}"));
             if *ty == 0 { c.send_system_event(SystemCommand(e), Pay::<0>(Payload(*pid))); } else { c.send_system_event(SystemCommand(e), Pay::<1>(Payload(*pid))); }
         }
         SAct::Broadcast(ty, pid) =>
         {
+            log(format!("send p{pid}"));
             if *ty == 0 { c.react().broadcast(Evt::<0>(Payload(*pid))); } else { c.react().broadcast(Evt::<1>(Payload(*pid))); }
         }
         SAct::EntityEvent(r, ty, pid) =>
         {
             let Some(e) = resolve(*r) else { return };
+            log(format!("send p{pid}"));
             if *ty == 0 { c.react().entity_event(e, Evt::<0>(Payload(*pid))); } else { c.react().entity_event(e, Evt::<1>(Payload(*pid))); }
         }
         SAct::ResMut(ty) =>
@@ -722,17 +725,20 @@ fn run_top(world: &mut World, t: usize, op: &STop)
         {
             if let Some(e) = resolve(*r)
             {
+                log(format!("send p{pid}"));
                 if *ty == 0 { world.send_system_event(SystemCommand(e), Pay::<0>(Payload(*pid))); } else { world.send_system_event(SystemCommand(e), Pay::<1>(Payload(*pid))); }
             } else { top_acts(world, t, vec![]) }
         }
         STop::WBroadcast(ty, pid) =>
         {
+            log(format!("send p{pid}"));
             if *ty == 0 { world.broadcast(Evt::<0>(Payload(*pid))); } else { world.broadcast(Evt::<1>(Payload(*pid))); }
         }
         STop::WEntityEvent(r, ty, pid) =>
         {
             if let Some(e) = resolve(*r)
             {
+                log(format!("send p{pid}"));
                 if *ty == 0 { world.entity_event(e, Evt::<0>(Payload(*pid))); } else { world.entity_event(e, Evt::<1>(Payload(*pid))); }
             } else { top_acts(world, t, vec![]) }
         }
